@@ -1,10 +1,182 @@
+import BoboVerif.Model.Decider
 import BoboVerif.Drivers.Util
-/- driver stub for the Decider model (to be replaced by the real line protocol). -/
+/-
+Line-protocol driver for M-Run / M-Decider (`bobodrv decider`).
+
+configuration (each answers `ok`):
+  reset
+  cache <n>                         max_cache
+  phen <name>                       start a phenomenon
+  pat <name> <0|1>                  start a pattern (singleton flag) in the current phenomenon
+  pre <pred>      | halt <pred>     add a precondition or haltcondition to the current pattern
+  blk <group|~> <slno> <pred,pred>  add a block; flags = 4 chars 0/1 (strict loop negated optional); `~` = ""
+operations:
+  ev <id> <ts> <s|c|a> <data>       update() with this event queued  → `<changed> C[..] H[..] U[..] | T[..]` or `X`
+  rem C <rec>* H <rec>* U <rec>*    on_distributed_update            → `C[..] H[..] U[..] | T[..]` or `X`
+  snap                              snapshot()                       → `C[..] H[..] U[..]`
+record  = id|phen|pat|idx|hist      hist = g=e.e;g=e    event = id:ts:kind:data     (`~` = empty group name)
+predicates: any | eq:k | ne:k | lt:k | gt:k | kind:<s|c|a> | sizelt:n | gtmax | grplt:<g>:<n> | raiseif:k:<pred>
+-/
 namespace Bobo.Drv.Decider
+open Bobo.Run Bobo.Decider
+
+inductive Kind | s | c | a deriving DecidableEq, Repr
+
+structure Ev where
+  id   : String
+  ts   : Int
+  kind : Kind
+  data : Int
+
+def kindStr : Kind → String | .s => "s" | .c => "c" | .a => "a"
+def parseKind : String → Option Kind | "s" => some .s | "c" => some .c | "a" => some .a | _ => none
+
+def histAll (h : Hist Ev) : List Ev := h.flatMap (·.2)
+
+/-- the shared predicate language (mirrored by harness/predlang.py). -/
+def parsePred : List String → Option (Pred Ev)
+  | ["any"] => some (fun _ _ => some true)
+  | ["eq", k] => k.toInt?.map (fun k => fun e _ => some (decide (e.data = k)))
+  | ["ne", k] => k.toInt?.map (fun k => fun e _ => some (decide (e.data ≠ k)))
+  | ["lt", k] => k.toInt?.map (fun k => fun e _ => some (decide (e.data < k)))
+  | ["gt", k] => k.toInt?.map (fun k => fun e _ => some (decide (e.data > k)))
+  | ["kind", k] => (parseKind k).map (fun k => fun e _ => some (decide (e.kind = k)))
+  | ["sizelt", n] => n.toNat?.map (fun n => fun _ h => some (decide (Hist.size h < n)))
+  | ["gtmax"] => some (fun e h => some ((histAll h).all (fun x => decide (e.data > x.data))))
+  | ["grplt", g, n] => n.toNat?.map (fun n => fun _ h =>
+      let g' := if g == "~" then "" else g
+      some (decide (((lookup g' h).getD []).length < n)))
+  | "raiseif" :: k :: rest =>
+    match k.toInt?, parsePred rest with
+    | some k, some p => some (fun e h => if e.data = k then none else p e h)
+    | _, _ => none
+  | _ => none
+
+def parsePredS (s : String) : Option (Pred Ev) := parsePred (s.splitOn ":")
+
+def parsePreds (s : String) : Option (List (Pred Ev)) := (s.splitOn ",").mapM parsePredS
+
+def grp (s : String) : String := if s == "~" then "" else s
+def ungrp (s : String) : String := if s == "" then "~" else s
+
+def parseEv (s : String) : Option Ev :=
+  match s.splitOn ":" with
+  | [id, ts, k, d] =>
+    match ts.toInt?, parseKind k, d.toInt? with
+    | some ts, some k, some d => some ⟨id, ts, k, d⟩
+    | _, _, _ => none
+  | _ => none
+
+def parseHist (s : String) : Option (Hist Ev) :=
+  if s == "" then some [] else
+  (s.splitOn ";").mapM (fun g =>
+    match g.splitOn "=" with
+    | [name, evs] => ((evs.splitOn ".").mapM parseEv).map (fun es => (grp name, es))
+    | _ => none)
+
+def parseRec (s : String) : Option (Rec Ev) :=
+  match s.splitOn "|" with
+  | [id, ph, pa, idx, h] =>
+    match idx.toNat?, parseHist h with
+    | some i, some h => some ⟨id, ph, pa, i, h⟩
+    | _, _ => none
+  | _ => none
+
+def showEv (e : Ev) : String := s!"{e.id}:{e.ts}:{kindStr e.kind}:{e.data}"
+def showHist (h : Hist Ev) : String :=
+  ";".intercalate (h.map (fun (g, es) => ungrp g ++ "=" ++ ".".intercalate (es.map showEv)))
+def showRec (r : Rec Ev) : String := s!"{r.id}|{r.phen}|{r.pat}|{r.idx}|{showHist r.hist}"
+def showRecs (rs : List (Rec Ev)) : String := "[" ++ " ".intercalate (rs.map showRec) ++ "]"
+def showTable (t : Table Ev) : String :=
+  "T[" ++ " ".intercalate (t.all.map (fun (ph, r) =>
+    showRec (r.ser ph) ++ (if r.run.halted then "!" else ""))) ++ "]"
+def showNotif (n : Notif Ev) : String :=
+  s!"C{showRecs n.completed} H{showRecs n.halted} U{showRecs n.updated}"
 
 structure DS where
-  dummy : Unit := ()
+  phens  : List (Phen Ev) := []       -- being built, reversed order NOT used: appended
+  cache  : Nat := 0
+  st     : DState Ev := {}
 
-def step (d : DS) (_line : String) : DS × String := (d, "unimplemented")
+def DS.cfg (d : DS) : Cfg Ev := { phenomena := d.phens, maxCache := d.cache, idOf := fun n => s!"r{n}" }
+
+def modLastPhen (d : DS) (f : Phen Ev → Phen Ev) : Option DS :=
+  match d.phens.reverse with
+  | [] => none
+  | p :: rest => some { d with phens := (f p :: rest).reverse }
+
+def modLastPat (d : DS) (f : Pattern Ev → Pattern Ev) : Option DS :=
+  match d.phens.reverse with
+  | [] => none
+  | p :: rest =>
+    match p.patterns.reverse with
+    | [] => none
+    | q :: qs => some { d with phens := ({ p with patterns := (f q :: qs).reverse } :: rest).reverse }
+
+def parseFlags (s : String) : Option (Bool × Bool × Bool × Bool) :=
+  match s.toList with
+  | [a, b, c, e] =>
+    let ok (x : Char) := x == '0' || x == '1'
+    if ok a && ok b && ok c && ok e then some (a == '1', b == '1', c == '1', e == '1') else none
+  | _ => none
+
+/-- split `rem C r r H r U r` into the three lists. -/
+def splitRem (ws : List String) : Option (List (Rec Ev) × List (Rec Ev) × List (Rec Ev)) :=
+  let rec go (ws : List String) (cur : Nat) (c h u : List (Rec Ev)) : Option (List (Rec Ev) × List (Rec Ev) × List (Rec Ev)) :=
+    match ws with
+    | [] => some (c, h, u)
+    | "C" :: rest => go rest 0 c h u
+    | "H" :: rest => go rest 1 c h u
+    | "U" :: rest => go rest 2 c h u
+    | w :: rest =>
+      match parseRec w with
+      | none => none
+      | some r =>
+        if cur == 0 then go rest cur (c ++ [r]) h u
+        else if cur == 1 then go rest cur c (h ++ [r]) u
+        else go rest cur c h (u ++ [r])
+  go ws 0 [] [] []
+
+def orBad (d : DS) (o : Option DS) : DS × String :=
+  match o with
+  | some d' => (d', "ok")
+  | none => (d, "bad-op")
+
+def step (d : DS) (line : String) : DS × String :=
+  match words line with
+  | ["reset"] => ({}, "ok")
+  | ["cache", n] => orBad d (n.toNat?.map (fun n => { d with cache := n }))
+  | ["phen", name] => ({ d with phens := d.phens ++ [{ name := name, patterns := [] }] }, "ok")
+  | ["pat", name, sg] =>
+    if sg == "0" || sg == "1" then
+      orBad d (modLastPhen d (fun p => { p with patterns := p.patterns ++
+        [{ name := name, blocks := [], pre := [], halt := [], singleton := sg == "1" }] }))
+    else (d, "bad-op")
+  | ["pre", p] => orBad d ((parsePredS p).bind (fun p => modLastPat d (fun q => { q with pre := q.pre ++ [p] })))
+  | ["halt", p] => orBad d ((parsePredS p).bind (fun p => modLastPat d (fun q => { q with halt := q.halt ++ [p] })))
+  | ["blk", g, fl, ps] =>
+    match parseFlags fl, parsePreds ps with
+    | some (s, l, n, o), some ps =>
+      orBad d (modLastPat d (fun q => { q with blocks := q.blocks ++
+        [{ preds := ps, group := grp g, strict := s, loop := l, negated := n, optional := o }] }))
+    | _, _ => (d, "bad-op")
+  | ["ev", id, ts, k, dat] =>
+    match ts.toInt?, parseKind k, dat.toInt? with
+    | some ts, some k, some dat =>
+      match localStep d.cfg d.st ⟨id, ts, k, dat⟩ with
+      | none => (d, "X")
+      | some (s', n, ch) => ({ d with st := s' }, s!"{boolStr ch} {showNotif n} | {showTable s'.table}")
+    | _, _, _ => (d, "bad-op")
+  | "rem" :: rest =>
+    match splitRem rest with
+    | none => (d, "bad-op")
+    | some (c, h, u) =>
+      match remoteStep d.cfg d.st c h u with
+      | none => (d, "X")
+      | some (s', n) => ({ d with st := s' }, s!"{showNotif n} | {showTable s'.table}")
+  | ["snap"] =>
+    let (c, h, u) := snapshot d.cfg d.st
+    (d, s!"C{showRecs c} H{showRecs h} U{showRecs u}")
+  | _ => (d, "bad-op")
 
 end Bobo.Drv.Decider
